@@ -6,8 +6,9 @@ ROOT = Path(__file__).resolve().parent.parent
 sys.path.insert(0, str(ROOT))
 
 # pid -> (category, technique, level text, level note, design ref)
+ALL_IDS = ["C%02d" % i for i in range(1, 21)]
 T = "runtime monitoring: "
-ENABLED = ["C01", "C02", "C04", "C05", "C06", "C07", "C08", "C09", "C10", "C11", "C12", "C13", "C14", "C15", "C16", "C18", "C19", "C20"]
+ENABLED = sorted(ALL_IDS)
 ALL = {
  "C01": ("exploration", T + "recorders on the user callables + database snapshots after every request, judged by an independent normalisation reference over generated request histories",
          "Held on the executions produced: generated design spaces x functions x preprocessing configurations x request histories are run on the real OptimizationProblem; every returned value/Jacobian, every database snapshot and every call of the user callables is judged (faithfulness, physical-space recording, memoisation, conservation).",
